@@ -1,0 +1,19 @@
+// SPDX-FileCopyrightText: 2023 The Pion community <https://pion.ly>
+// SPDX-License-Identifier: MIT
+
+//go:build verif
+
+package codecs
+
+import (
+	"github.com/pion/randutil"
+)
+
+// VerifSetRandom replaces the package random generator (verification seam) and
+// returns a function that restores the previous one.
+func VerifSetRandom(g randutil.MathRandomGenerator) (restore func()) {
+	old := globalMathRandomGenerator
+	globalMathRandomGenerator = g
+
+	return func() { globalMathRandomGenerator = old }
+}
